@@ -395,14 +395,27 @@ func lexicalGuards(pm map[ast.Node]ast.Node, n ast.Node, stop ast.Node) []Atom {
 				out = append(out, implied(x.Cond, nil, false)...)
 			}
 		case *ast.CaseClause:
+			var sw *ast.SwitchStmt
+			if blk, ok := pm[x].(*ast.BlockStmt); ok {
+				sw, _ = pm[blk].(*ast.SwitchStmt)
+			}
+			if sw == nil {
+				break
+			}
 			if len(x.List) == 1 {
-				var tag ast.Expr
-				if blk, ok := pm[x].(*ast.BlockStmt); ok {
-					if sw, ok := pm[blk].(*ast.SwitchStmt); ok {
-						tag = sw.Tag
+				out = append(out, implied(x.List[0], sw.Tag, true)...)
+			}
+			// first-match semantics of a tagless switch: every earlier case was false
+			if sw.Tag == nil {
+				for _, st := range sw.Body.List {
+					prev := st.(*ast.CaseClause)
+					if prev == x {
+						break
+					}
+					for _, e := range prev.List {
+						out = append(out, implied(e, nil, false)...)
 					}
 				}
-				out = append(out, implied(x.List[0], tag, true)...)
 			}
 		}
 	}
